@@ -59,6 +59,10 @@ def be16 (b : List UInt8) (off : Nat) : Nat := (b.getD off 0).toNat * 256 + (b.g
 /-- The two big-endian bytes of a 16-bit value. -/
 def put16 (v : Nat) : List UInt8 := [UInt8.ofNat (v / 256 % 256), UInt8.ofNat (v % 256)]
 
+/-- Overwrite the 16-bit big-endian field at byte offset `off`
+(`binary.BigEndian.PutUint16(b[off:off+2], v)` on an in-range field). -/
+def set16 (b : List UInt8) (off v : Nat) : List UInt8 := b.take off ++ put16 v ++ b.drop (off + 2)
+
 /-- A receiver's check: the words (including the transmitted checksum field) plus `pseudo` sum to the
 one's-complement "negative zero" `0xffff`. -/
 def verifies (bytes : List UInt8) (pseudo : Nat) : Prop := fold16 (wsum bytes + pseudo) = 65535
